@@ -527,6 +527,25 @@ fn structural_texts(name: &str, text: &str, thorough: bool) -> Vec<(String, Stri
             out.push((format!("{name}:{kp}<-key-misspelt"), emit(&remove_or_rename(doc, p, Some("x")))));
         }
     }
+    // pairs: two duration-valued scalars set to a huge value at once (arithmetic that is safe for
+    // either alone may overflow when both bounds are lifted)
+    let looks_like_duration = |y: &Yaml| -> bool {
+        match y {
+            Yaml::String(s) => s.len() <= 6 && s.chars().next().map(|c| c.is_ascii_digit()).unwrap_or(false) && s.chars().last().map(|c| "smhdw".contains(c)).unwrap_or(false) && s[..s.len() - 1].chars().all(|c| c.is_ascii_digit()),
+            _ => false,
+        }
+    };
+    let dur_paths: Vec<&Vec<usize>> = ps.iter().filter(|p| looks_like_duration(get(doc, p))).collect();
+    let huge = ["4294967295", "18446744073709551615", "-1", "4294967296", "213503982334601d"];
+    for (a, pa) in dur_paths.iter().enumerate() {
+        for pb in dur_paths.iter().skip(a + 1) {
+            for h in huge {
+                let d1 = replace(doc, pa, &Yaml::String(h.to_string()));
+                let d2 = replace(&d1, pb, &Yaml::String(h.to_string()));
+                out.push((format!("{name}:{}+{}<-huge:{h}", key_path_text(doc, pa), key_path_text(doc, pb)), emit(&d2)));
+            }
+        }
+    }
     out
 }
 
@@ -728,7 +747,7 @@ pub fn run(tier: &str, replay: Option<Value>) -> ! {
     crate::common::clock::unset();
     rep.cov("evaluations", tally.loads.load(Ordering::Relaxed));
     rep.cov("distinct_nontrivial", tally.accepted.load(Ordering::Relaxed));
-    rep.cov("rule", "texts = shipped examples (man page .EX blocks, erbium.conf.example commented and uncommented) and a skeleton naming every remaining key and DHCP option type; structural sweep: every node <- 21 wrong-type/boundary values, every scalar <- 12 duration shapes, misspelt/upper-cased, every prefix-shaped scalar <- every length (quick: 0..34 and boundaries; thorough 0..255) x 9 address forms (network, host bits set, zero, v4-mapped, top of the IPv4 / IPv6 space), every entry removed / key misspelt; byte sweep: every offset x {deletion, 17 structural octets}. Every accepted text is served (ACL decisions, RA build+serialise per interface, DISCOVER+REQUEST from 4 receiving addresses x 3 clients; route variants through the live DNS service). distinct_nontrivial = texts the loader accepted (and that were therefore served)");
+    rep.cov("rule", "texts = shipped examples (man page .EX blocks, erbium.conf.example commented and uncommented) and a skeleton naming every remaining key and DHCP option type; structural sweep: every node <- 21 wrong-type/boundary values, every scalar <- 12 duration shapes, misspelt/upper-cased, every prefix-shaped scalar <- every length (quick: 0..34 and boundaries; thorough 0..255) x 9 address forms (network, host bits set, zero, v4-mapped, top of the IPv4 / IPv6 space), every entry removed / key misspelt, every PAIR of duration-valued scalars set to each of 5 huge values at once; byte sweep: every offset x {deletion, 17 structural octets}. Every accepted text is served (ACL decisions, RA build+serialise per interface, DISCOVER+REQUEST from 4 receiving addresses x 3 clients; route variants through the live DNS service). distinct_nontrivial = texts the loader accepted (and that were therefore served)");
     rep.cov("exhaustive", true);
     rep.cov("parts", json!({"structural_texts": n_struct, "byte_texts": n_bytes, "accepted_and_served": tally.accepted.load(Ordering::Relaxed), "serve_steps": tally.served.load(Ordering::Relaxed), "route_variants_served_live": n_dns}));
     rep.cov("outcome_classes", json!(classes));
